@@ -74,8 +74,9 @@ StringDictionaryPFC::StringDictionaryPFC(IteratorDictString *it,
       maxlength = lenCurrent + 1;
 
     // Checking the available space in textStrings and
-    // realloc if required
-    while ((bytesStrings + (2 * lenCurrent)) > reservedStrings)
+    // realloc if required (a string of one char may take three bytes: lcp,
+    // char and terminator)
+    while ((bytesStrings + (2 * lenCurrent) + 1) > reservedStrings)
       reservedStrings = Reallocate(&textStrings, reservedStrings);
 
     if ((elements % bucketsize) == 0) {
